@@ -11,6 +11,8 @@ use crate::wire::app;
 pub struct Step {
     pub now: u64,
     pub cbs: Vec<Cb>,
+    /// observation order of each callback (comparable with `Tx::Frag::ord`)
+    pub cb_ords: Vec<u64>,
     pub out: Vec<Tx>,
 }
 
@@ -33,7 +35,8 @@ pub fn collect(
     sent: Option<&[u8]>,
     transcript: bool,
 ) -> Step {
-    let step = Step { now: sim.k.now_ms(), cbs: sim.take_cb(), out: sim.take_out() };
+    let (cbs, cb_ords) = sim.take_cb_ordered();
+    let step = Step { now: sim.k.now_ms(), cbs, cb_ords, out: sim.take_out() };
     res.transitions += 1;
     obs.add_str(label);
     for c in &step.cbs {
